@@ -1090,7 +1090,7 @@ def decoder_overrides():
     o['minicbor::decode::Decode::nil'] = nil_leaf
     o['minicbor::bytes::DecodeBytes::decode_bytes'] = dec_leaf
     o['minicbor::bytes::DecodeBytes::nil'] = nil_leaf
-    for nm in ("ArrayIter<'a, 'b, T>", "ArrayIterWithCtx<'a, 'b, C, T>", "MapIter<'a, 'b, K, V>", "MapIterWithCtx<'a, 'b, C, K, V>"):
+    for nm in ("ArrayIter<'_, '_, T>", "ArrayIterWithCtx<'_, '_, C, T>", "MapIter<'_, '_, K, V>", "MapIterWithCtx<'_, '_, C, K, V>"):
         o['<minicbor::decode::decoder::%s as std::iter::Iterator>::next' % nm] = iter_next_override
     return o
 
